@@ -3,12 +3,13 @@ CONSTANTS
   Versions <- VersionsAll
   Family = "sib"
   ShapeIds <- ShapesC03
-  VariantIds <- Variants125
+  VariantIds <- VariantsSibQuick
   MaxOps = 0
   Alphabet <- NoOps
   PreOps <- PreSibQuick
   SibFields <- SibAll
   SidPairs <- NoSid
   TamperMax = 0
+  EdgeShapes <- ShapesEdgeQuick
 INVARIANTS TypeOK PIdStable PRoundTrip PRedactKeeps PV12 PBuildOrRefuse PSibling PSiblingHash Emit
 CHECK_DEADLOCK FALSE
